@@ -954,3 +954,73 @@ func c01R37(ic *IC, r *Report) {
 			"the "+k[0]+" case of cfg stores the scope's "+k[1]+" field into the successor of the statement without testing it: outside of a loop (switch, select) it is nil, the statement is accepted (compiled Go: break is not in a loop, switch, or select) and ends the function silently when executed")
 	}
 }
+
+func init() {
+	ruleText["R01.38"] = "a range statement is a range over a channel only in its form with at most one iteration variable: in (*scope).rangeChanType every return of a type is under a test that the statement has three children (in its condition, an enclosing one, or an earlier `if len(n.child) != 3 { return nil }`) - in the form with a key and a value the child examined is the value variable, and a slice or map of channels would be ranged as a channel"
+}
+
+// c01R38: D125 (round-8 report on C08, P1). One of the two paths of rangeChanType tested the
+// number of children, the other did not.
+func c01R38(ic *IC, r *Report) {
+	info := ic.Info
+	fi := ic.fn(r, "scope.rangeChanType")
+	if fi == nil {
+		return
+	}
+	arity := func(e ast.Expr, op token.Token) bool {
+		found := false
+		ast.Inspect(e, func(z ast.Node) bool {
+			b, ok := z.(*ast.BinaryExpr)
+			if !ok || b.Op != op {
+				return true
+			}
+			if l, ok := unparen(b.Y).(*ast.BasicLit); !ok || l.Value != "3" {
+				return true
+			}
+			if c, ok := unparen(b.X).(*ast.CallExpr); ok {
+				if id := identOf(c.Fun); id != nil && id.Name == "len" && len(c.Args) == 1 {
+					if se, ok := unparen(c.Args[0]).(*ast.SelectorExpr); ok && se.Sel.Name == "child" {
+						found = true
+					}
+				}
+			}
+			return true
+		})
+		return found
+	}
+	// an early exit of the function body for the other forms
+	guardEnd := token.NoPos
+	for _, st := range fi.Decl.Body.List {
+		if ifs, ok := st.(*ast.IfStmt); ok && arity(ifs.Cond, token.NEQ) && len(ifs.Body.List) > 0 {
+			if rs, ok := ifs.Body.List[len(ifs.Body.List)-1].(*ast.ReturnStmt); ok && len(rs.Results) == 1 {
+				if id := identOf(rs.Results[0]); id != nil && id.Name == "nil" {
+					guardEnd = ifs.End()
+				}
+			}
+		}
+	}
+	n := 0
+	ast.Inspect(fi.Decl.Body, func(q ast.Node) bool {
+		rs, ok := q.(*ast.ReturnStmt)
+		if !ok || len(rs.Results) != 1 {
+			return true
+		}
+		if id := identOf(rs.Results[0]); id != nil && id.Name == "nil" {
+			return true
+		}
+		n++
+		ok = guardEnd != token.NoPos && rs.Pos() > guardEnd
+		for _, p := range enclosingPath(fi.Decl.Body, rs) {
+			if ifs, isIf := p.(*ast.IfStmt); isIf && arity(ifs.Cond, token.EQL) {
+				ok = true
+			}
+		}
+		r.Check(ok, "R01.38", fmt.Sprintf("scope.rangeChanType/return#%d/only-for-the-form-without-key", n), ic.pos(rs.Pos()), "the return is under the test of the number of children",
+			"(*scope).rangeChanType returns "+types.ExprString(rs.Results[0])+" at "+ic.pos(rs.Pos())+" whatever the form of the range statement: for `for k, v := range x` the child it examines is the value variable v, so a slice, array or map of channels is compiled as a range over a channel - `for _, in := range ins { ... }` over []chan int panics in reflect (Len on int Value), with a map it dereferences nil")
+		return true
+	})
+	_ = info
+	if n < 2 {
+		r.Errorf("R01.38: only %d returns of a type found in (*scope).rangeChanType", n)
+	}
+}
